@@ -279,10 +279,18 @@ class Normaliser:
             return None
 
         init = st["init"]
-        while init["k"] == "Block" and not init["stmts"] and "expr" in init:
+        hoisted = []
+        while init["k"] == "Block" and "expr" in init:
+            # a block (an inlined helper: parameter lets, its own lets, a tuple at the end) that cannot be left early:
+            # its statements are read in the enclosing block (local ids are unique), the tuple is split per component
+            if init["stmts"] and any(x.get("k") in ("InlRet", "Ret", "Break", "Continue") for s_ in init["stmts"] for x in walk(s_)):
+                break
+            hoisted.extend(init["stmts"])
             init = init["expr"]
         if init["k"] == "Tup" and len(init["es"]) == len(subs):
-            return [{"k": "Let", "sp": st.get("sp", "?"), "pat": s, "init": e} for s, e in zip(subs, init["es"]) if s["k"] == "Bind"]
+            return hoisted + [{"k": "Let", "sp": st.get("sp", "?"), "pat": s, "init": e} for s, e in zip(subs, init["es"]) if s["k"] == "Bind"]
+        if hoisted:
+            return None
         if init["k"] == "If" and "e" in init:
             a, b = comps(init["t"]), comps(init["e"])
             if a and b:
